@@ -2,40 +2,86 @@
 
 Unlike harness/translate.py (static data only) this module translates FUNCTION BODIES.  It is
 deliberately tiny: it covers exactly the first-order, list-and-integer subset in which
-`superrec2/utils/subsequences.py` is written, and raises `Unsupported(node)` on anything else
-(never guesses).  The output is re-generated on every run of the check and compared with the
-hand-written model BY PROOF (lean/SRVerif/Proofs/SubseqPyEquiv.lean), so that the property
-theorems hold of "what the code says now" (lean/SRVerif/Properties/C18Code.lean).
+`superrec2/utils/subsequences.py` (C18) and `superrec2/utils/range_min_query.py` (C17) are written,
+and raises `Unsupported(node)` on anything else (never guesses).  The output is re-generated on every
+run of the check and compared with the hand-written model BY PROOF (lean/SRVerif/Proofs/SubseqPyEquiv.lean,
+lean/SRVerif/Proofs/RmqPyEquiv.lean), so that the property theorems hold of "what the code says now"
+(lean/SRVerif/Properties/C18Code.lean, C17Code.lean).
 
 Subset
 ------
 * module level: docstring, imports, `Name = TypeVar(...)`, the functions named in the ModuleSpec
-  (other top-level statements are rejected; other functions are ignored, calls to them rejected);
-* parameters annotated `int` (translated as `Nat`: PRECONDITION non-negative, recorded in the
-  generated header), `bool`, `Element`, `Sequence[T]` / `List[T]`;
-* statements: assignment to a plain name, augmented assignment (normalised to `x = x op e`, so
-  `x += 1` and `x = x + 1` give the same output), `x.append(e)` on a local list, `if/elif/else`,
-  `for x in seq`, `for i, x in enumerate(seq)`, `for x in range(n)` / `range(a, b)`,
+  (other top-level statements are rejected; other functions are ignored, calls to them rejected; a call
+  of a function translated EARLIER in the same module is a hoisted `Except`-valued call);
+  classes (only in a ModuleSpec that names methods `Class.method`): a class listed in the spec, with no
+  base but `Generic[...]`, whose body holds only a docstring and the listed methods, becomes a Lean
+  `structure` with one field per attribute stored by `__init__` (`self.attr = e` / `self.attr: T = e`;
+  inside `__init__` an attribute is a local variable, the object is built when `__init__` falls off its
+  end; `return` inside `__init__` is rejected) and one function per method, taking `self` (the
+  structure) first; a method other than `__init__` may only READ attributes; other classes of the
+  module (typing protocols) are ignored and any use of them is rejected;
+* parameters annotated `int`, `bool`, `Element`, `Sequence[T]` / `List[T]`, `Optional[T]`.  What `int`
+  means is fixed per module (`ModuleSpec.int_ty`): `Nat` with the recorded PRECONDITION "non-negative"
+  (C18), or `Int`, every Python int, no precondition (C17);
+* statements: assignment to a plain name, `a, b = e1, e2` (right-hand sides first), augmented
+  assignment (normalised to `x = x op e`, so `x += 1` and `x = x + 1` give the same output),
+  `x.append(e)` on a local list, item assignment `x[i] = e` / `x[i][j] = e` (`IndexError` when out of
+  range, never extends), `assert x is not None` on a local (narrows `x` from `Optional[T]` to `T` in
+  what follows; `AssertionError` otherwise), `assert cond`, `if/elif/else`, `for x in seq`,
+  `for i, x in enumerate(seq)`, `for x in range(n)` / `range(a, b)`,
   `while x:` (and `x != 0`, `x > 0`) whose body shifts / floor-divides `x` exactly once at its top
   level (this is the recognised variant; the fuel `bit_length(x)` is generated from it),
   `break`, `continue` (for loops only), `return e`, `pass`;
-* expressions: non-negative int literals, `-e`, `True/False`, names, `+ - * ** & | ^ << >>`,
-  `% //` by a positive literal, one-operator comparisons, `and/or/not`, `bool(e)`, `len(e)`,
-  `e.bit_length()`, `seq.index(e)`, `seq[i]`, `list(e)`, `a if c else b`, list displays.
+* expressions: non-negative int literals, `None`, `-e`, `True/False`, names, `self.attr`,
+  `+ - * ** & | ^ << >>`, `% //` by a positive literal, one-operator comparisons, `e is None` /
+  `e is not None`, `and/or/not`, `bool(e)`, `len(e)`, `e.bit_length()`, `seq.index(e)`, `seq[i]`,
+  `list(e)`, `a if c else b`, list displays, `[e] * n`, `[e for x in seq]` (one generator, no condition,
+  non-raising `e`), `min(a, b)` / `max(a, b)` on ints, `min(a, b)` on elements or Optional elements.
 
 Typing: every int expression is `Nat` or `Int`.  `a - b` and `-a` are `Int`; a variable is `Int` as
-soon as one of its assignments is (`dist -= 1`); `& | ^ << >> % // bit_length`, indexing and
-`range` require `Nat` operands (on a possibly negative int they are rejected, not guessed).
+soon as one of its assignments is (`dist -= 1`).  In a module whose ints are `Nat` (C18),
+`& | ^ << >> % // bit_length`, indexing and `range` require `Nat` operands (on a possibly negative int
+they are rejected, not guessed).  In a module whose ints are `Int` (C17) the operations are translated
+with their exact Python meaning on negative numbers:
+* `seq[i]` / `seq[i] = v` with an `Int` index WRAP AROUND exactly as `list.__getitem__` does
+  (`Py.getInt?` / `Py.setInt?`: `seq[-1]` is the last element, `IndexError` below `-len`); this is a
+  decision: negative indices are modelled, not rejected;
+* `range(n)` and `[e] * n` with `n <= 0` are empty (`Int.toNat`); `range(a, b)` needs a `Nat` start
+  (its elements are then `Nat`);
+* `i.bit_length()` is `Py.bitLengthInt` (of the absolute value); `a << k`, `a >> k` raise `ValueError`
+  for `k < 0`; `a ** e` with an `Int` exponent is the checked `Py.powInt?`: for `e < 0` Python
+  returns a float (or raises ZeroDivisionError for base 0), which is outside the subset, so the
+  translated run stops with the marker
+  `Err.OutOfSubset` (like `Diverged`, not a Python exception; the equivalence proofs show that it is
+  never returned on the inputs they cover); `& | ^` stay `Nat`-only.
+`None`: a variable / cell / result that may be `None` has type `Option T`; a plain value stored there is
+embedded with `some` (`list(data)` stored as a row of Optional cells is `List.map some data`).
+Elements: `Element` is opaque.  With `ModuleSpec.elem_lt` the functions take an explicit parameter
+`lt_ : α → α → Except Py.Err Bool` standing for `Element.__lt__` (it may raise); `min(a, b)` is
+`Py.pyMin lt_ a b` (evaluates `b < a`, keeps `a` unless it holds) and, on values that may be `None`,
+`Py.pyMinOpt` (`TypeError` when one of them is `None`); `==` on such elements is rejected.  Without
+it (C18) elements support `==` only (`[DecidableEq α]`).
+Lists have VALUE semantics in Lean.  This is exact as long as no list is reachable through two
+references, which the translator enforces syntactically: a list-typed value that is STORED (bound to a
+name, appended, item-assigned, element of a display / comprehension / repetition) must be freshly built
+(display, comprehension, `list(e)` of a list without nested lists, `[e] * n` with a non-list `e`);
+binding or storing an existing list (`x = y`, `x = t[i]`, `t.append(x)`, `[row] * n`, `list(table)`)
+is rejected, as are in-place changes of parameters, of loop targets and (outside `__init__`) of
+attributes.  Elements themselves are assumed immutable.
 
 Normal form (what the hand-written equivalence proofs are stated against)
 -----------------------------------------------------------------------
 * `def f (params) : Except Err rho` -- `.error e` = Python raises `e`;
 * straight-line code is a chain of `let x : T := e`; an `if` without escape (no return / break /
-  continue / raising expression inside) is a tuple-valued `let (x, y) : .. := if c then .. else ..`
-  over the variables it assigns; any other `if` is an `if c then .. else ..` whose branches contain
-  the rest of the block (duplicated only when both branches can fall through);
-* raising sub-expressions (`seq[i]`, `seq.index(v)`) are hoisted, in evaluation order, into
-  `match seq[i]? with | none => <raise IndexError> | some t1_ => ..`;
+  continue / assert / item assignment / raising expression inside) is a tuple-valued
+  `let (x, y) : .. := if c then .. else ..` over the variables it assigns; any other `if` is an
+  `if c then .. else ..` whose branches contain the rest of the block (duplicated only when both
+  branches can fall through);
+* raising sub-expressions (`seq[i]`, `seq.index(v)`, checked `**` / shifts, the steps of an item
+  assignment) are hoisted, in evaluation order, into
+  `match seq[i]? with | none => <raise IndexError> | some t1_ => ..`; calls of translated functions and
+  `min` on elements into `match f args with | .error e_ => <raise e_> | .ok t1_ => ..`;
+* `assert x is not None` is `match x with | none => <raise AssertionError> | some x => ..`;
 * every loop is a local function `f.loopK free.. : List beta -> sigma -> Ctl sigma rho` (structural
   recursion on the iterated list) or `.. : Nat -> sigma -> Ctl sigma rho` (recursion on the fuel),
   `sigma` = tuple of the variables assigned in the body that are live before the loop, in the
@@ -78,16 +124,46 @@ def tlist(t):
     return ("list", t)
 
 
+def topt(t):
+    return ("opt", t)
+
+
+def tstruct(name, elem):
+    return ("struct", name, bool(elem))
+
+
 def is_list(t):
     return isinstance(t, tuple) and t[0] == "list"
 
 
+def is_opt(t):
+    return isinstance(t, tuple) and t[0] == "opt"
+
+
+def is_struct(t):
+    return isinstance(t, tuple) and t[0] == "struct"
+
+
 def has_bot(t):
-    return t == BOT or (is_list(t) and has_bot(t[1]))
+    return t == BOT or ((is_list(t) or is_opt(t)) and has_bot(t[1]))
 
 
 def uses_elem(t):
-    return t == ELEM or (is_list(t) and uses_elem(t[1]))
+    return t == ELEM or ((is_list(t) or is_opt(t)) and uses_elem(t[1])) or (is_struct(t) and t[2])
+
+
+def has_list(t):
+    """The value is (or holds) a mutable container: it must never be referenced twice."""
+    return is_list(t) or is_struct(t) or (is_opt(t) and has_list(t[1]))
+
+
+def fits(ty, want):
+    """A term written at type `ty` elaborates unchanged at type `want` (`[]`, `none` are polymorphic)."""
+    if ty == want or ty == BOT:
+        return True
+    if (is_list(ty) and is_list(want)) or (is_opt(ty) and is_opt(want)):
+        return fits(ty[1], want[1])
+    return False
 
 
 def join(a, b, node):
@@ -99,13 +175,21 @@ def join(a, b, node):
         return INT
     if is_list(a) and is_list(b):
         return tlist(join(a[1], b[1], node))
+    if is_opt(a) or is_opt(b):
+        # `None` or a value: Optional[T]; a plain value is embedded with `some`
+        inner = join(a[1] if is_opt(a) else a, b[1] if is_opt(b) else b, node)
+        if is_opt(inner):
+            raise Unsupported(node, "nested Optional")
+        return topt(inner)
     raise Unsupported(node, f"incompatible types {show_ty(a)} / {show_ty(b)}")
 
 
 def show_ty(t):
-    if is_list(t):
+    if is_list(t) or is_opt(t):
         inner = show_ty(t[1])
-        return "List " + (f"({inner})" if " " in inner else inner)
+        return ("List " if is_list(t) else "Option ") + (f"({inner})" if " " in inner else inner)
+    if is_struct(t):
+        return t[1] + (" α" if t[2] else "")
     return t
 
 
@@ -115,10 +199,23 @@ LEAN_KEYWORDS = set(
     "set_option show structure syntax then theorem universe variable where with macro local "
     "partial unsafe opaque nomatch nofun this Type Prop Sort".split()
 )
-RESERVED = {"it_", "fuel_", "e_", "v_"}
+RESERVED = {"it_", "fuel_", "e_", "v_", "lt_"}
+# builtins whose Python meaning the translator relies on: a module or a function that rebinds one is rejected
+BUILTINS = {"min", "max", "len", "bool", "list", "range", "enumerate", "int", "None", "True", "False"}
+INFER = "?infer"  # member of the `defined` set while types are being inferred (no binding checks)
+
+
+def nn(name):
+    """Marker in a `defined` set: `name` is bound, here, at the type inside its Optional
+    (after `assert name is not None`)."""
+    return ("nn", name)
 
 
 def lean_name(name, node=None):
+    if name.startswith("self."):
+        return "self_" + lean_name(name[5:], node)
+    if name in BUILTINS:
+        raise Unsupported(node or name, f"`{name}` rebinds a builtin the translator relies on")
     if name in RESERVED or re.fullmatch(r"t\d+_", name):
         raise Unsupported(node or name, f"local name `{name}` is reserved by the translator")
     if not re.fullmatch(r"[A-Za-z_][A-Za-z0-9_]*", name):
@@ -145,7 +242,7 @@ def tup_ty(types):
 
 
 def paren_ty(t):
-    s = show_ty(t) if is_list(t) else t
+    s = t if isinstance(t, str) else show_ty(t)
     return f"({s})" if " " in s else s
 
 
@@ -153,17 +250,58 @@ def paren_ty(t):
 # Small syntactic analyses
 
 
+def target_key(t):
+    """Key of an assignable place: a plain name, or `self.attr` (key "self.attr")."""
+    if isinstance(t, ast.Name):
+        return t.id
+    if isinstance(t, ast.Attribute) and isinstance(t.value, ast.Name) and t.value.id == "self":
+        return "self." + t.attr
+    return None
+
+
+def tuple_assign(st):
+    """[(name, value)] when `st` is `a, b = e1, e2` (all right-hand sides are evaluated first)."""
+    if (isinstance(st, ast.Assign) and len(st.targets) == 1 and isinstance(st.targets[0], ast.Tuple)
+            and isinstance(st.value, ast.Tuple) and len(st.value.elts) == len(st.targets[0].elts)
+            and all(isinstance(e, ast.Name) for e in st.targets[0].elts)):
+        names = [e.id for e in st.targets[0].elts]
+        if len(set(names)) == len(names):
+            return list(zip(names, st.value.elts))
+    return None
+
+
+def setitem(st):
+    """(key of the container, [index expressions], value) when `st` is `x[i] = v` / `x[i][j] = v`
+    (`x` a plain name or `self.attr`)."""
+    if not (isinstance(st, ast.Assign) and len(st.targets) == 1 and isinstance(st.targets[0], ast.Subscript)):
+        return None
+    idx, t = [], st.targets[0]
+    while isinstance(t, ast.Subscript):
+        if isinstance(t.slice, ast.Slice):
+            raise Unsupported(st, "slice assignment")
+        idx.insert(0, t.slice)
+        t = t.value
+    key = target_key(t)
+    if key is None or len(idx) > 2:
+        raise Unsupported(st, "item assignment is supported on `x[i]` / `x[i][j]` only")
+    return key, idx, st.value
+
+
 def stmt_target(st):
     """(name, value-expression) of an assignment statement, with `x op= e` normalised to
-    `x = x op e`."""
+    `x = x op e`.  None for the other statements (and for `a, b = ..` / `x[i] = ..`)."""
+    if tuple_assign(st) or setitem(st):
+        return None
     if isinstance(st, ast.Assign):
-        if len(st.targets) != 1 or not isinstance(st.targets[0], ast.Name):
+        key = target_key(st.targets[0]) if len(st.targets) == 1 else None
+        if key is None:
             raise Unsupported(st, "only assignments to one plain name are supported")
-        return st.targets[0].id, st.value
+        return key, st.value
     if isinstance(st, ast.AnnAssign):
-        if not isinstance(st.target, ast.Name) or st.value is None:
+        key = target_key(st.target)
+        if key is None or st.value is None:
             raise Unsupported(st, "only assignments to one plain name are supported")
-        return st.target.id, st.value
+        return key, st.value
     if isinstance(st, ast.AugAssign):
         if not isinstance(st.target, ast.Name):
             raise Unsupported(st, "only assignments to one plain name are supported")
@@ -176,9 +314,9 @@ def append_call(st):
     """(list name, argument) when `st` is `name.append(arg)`."""
     if (isinstance(st, ast.Expr) and isinstance(st.value, ast.Call)
             and isinstance(st.value.func, ast.Attribute) and st.value.func.attr == "append"
-            and isinstance(st.value.func.value, ast.Name) and len(st.value.args) == 1
+            and target_key(st.value.func.value) is not None and len(st.value.args) == 1
             and not st.value.keywords):
-        return st.value.func.value.id, st.value.args[0]
+        return target_key(st.value.func.value), st.value.args[0]
     return None
 
 
@@ -203,6 +341,10 @@ def assigned(stmts):
         tv = stmt_target(st) if isinstance(st, (ast.Assign, ast.AugAssign, ast.AnnAssign)) else None
         if tv:
             out.add(tv[0])
+        if tuple_assign(st):
+            out |= {n for n, _ in tuple_assign(st)}
+        if setitem(st):
+            out.add(setitem(st)[0])
         ap = append_call(st)
         if ap:
             out.add(ap[0])
@@ -221,6 +363,8 @@ def reads(nodes):
         for sub in ast.walk(n):
             if isinstance(sub, ast.Name):
                 out.add(sub.id)
+            elif isinstance(sub, ast.Attribute) and target_key(sub):
+                out.add(target_key(sub))
     return out
 
 
@@ -233,40 +377,6 @@ def always_exits(stmts):
     if isinstance(last, ast.If):
         return always_exits(last.body) and always_exits(last.orelse)
     return False
-
-
-RAISING = (ast.Subscript,)
-
-
-def expr_may_raise(node):
-    for sub in ast.walk(node):
-        if isinstance(sub, RAISING):
-            return True
-        if isinstance(sub, ast.Call) and isinstance(sub.func, ast.Attribute) and sub.func.attr == "index":
-            return True
-    return False
-
-
-def is_pure_block(stmts):
-    """No escape (return / break / continue / loop / raising expression) anywhere inside."""
-    for st in stmts:
-        if is_docstring(st) or isinstance(st, ast.Pass):
-            continue
-        if isinstance(st, (ast.Assign, ast.AugAssign, ast.AnnAssign)):
-            if expr_may_raise(stmt_target(st)[1]):
-                return False
-            continue
-        ap = append_call(st)
-        if ap:
-            if expr_may_raise(ap[1]):
-                return False
-            continue
-        if isinstance(st, ast.If):
-            if expr_may_raise(st.test) or not is_pure_block(st.body) or not is_pure_block(st.orelse):
-                return False
-            continue
-        return False
-    return True
 
 
 def contains(stmts, kinds):
@@ -284,13 +394,31 @@ class Ctx:
 # One function
 
 
+class ModuleCtx:
+    """What a function translation needs to know about its module."""
+
+    def __init__(self, elem_names=("Element",), int_ty=NAT, elem_binders=" {α : Type} [DecidableEq α]",
+                 elem_args="", has_deq=True, has_lt=False):
+        self.elem_names = set(elem_names)
+        self.int_ty = int_ty  # what a parameter annotated `int` becomes
+        self.elem_binders = elem_binders
+        self.elem_args = elem_args  # explicit arguments that go with `elem_binders` (" lt_")
+        self.has_deq = has_deq  # `==` on elements is available
+        self.has_lt = has_lt  # `min` on elements is available (through `lt_`)
+        self.sigs = {}  # python name -> signature of the functions translated so far
+        self.classes = {}  # class name -> {attribute: type}
+
+
 class FunctionTranslator:
     MAX_LINES = 1500
 
-    def __init__(self, fn, elem_names=("Element",)):
+    def __init__(self, fn, elem_names=("Element",), mod=None, cls=None):
         self.fn = fn
-        self.name = lean_name(fn.name, fn)
-        self.elem_names = set(elem_names)
+        self.mod = mod or ModuleCtx(elem_names)
+        self.cls = cls
+        self.kind = "function" if cls is None else ("init" if fn.name == "__init__" else "method")
+        self.name = (cls + "." if cls else "") + lean_name(fn.name, fn)
+        self.elem_names = self.mod.elem_names
         self.aux = []  # loop definitions (text), innermost first
         self.n_loops = 0
         self.n_tmp = 0
@@ -299,14 +427,38 @@ class FunctionTranslator:
         a = fn.args
         if a.vararg or a.kwarg or a.kwonlyargs or a.posonlyargs or a.defaults or fn.decorator_list:
             raise Unsupported(fn, "only plain positional parameters are supported")
-        self.params = [p.arg for p in a.args]
+        args = list(a.args)
         self.types = {}
-        for p in a.args:
+        self.params = []
+        if cls is not None:
+            if not args or args[0].arg != "self" or args[0].annotation is not None:
+                raise Unsupported(fn, "a method must take `self` first")
+            args = args[1:]
+            if self.kind == "method":
+                if cls not in self.mod.classes:
+                    raise Unsupported(fn, "method translated before `__init__`")
+                attrs = self.mod.classes[cls]
+                self.params.append("self")
+                self.types["self"] = tstruct(cls, any(uses_elem(t) for t in attrs.values()))
+        for p in args:
+            if p.arg == "self":
+                raise Unsupported(p, "parameter named `self`")
+            lean_name(p.arg, p)
+            self.params.append(p.arg)
             self.types[p.arg] = self.annotation(p.annotation, p)
+        self.param_types = dict(self.types)
         self.vars = list(self.params)
         self.collect_vars(fn.body)
         self.ret_type = BOT
         self.infer()
+        if self.kind == "init":
+            self.attrs = {v[5:]: self.types[v] for v in self.vars if v.startswith("self.")}
+            for at, ty in self.attrs.items():
+                if has_bot(ty):
+                    raise Unsupported(fn, f"cannot infer the type of `self.{at}`")
+            if not self.attrs:
+                raise Unsupported(fn, "`__init__` stores no attribute")
+            self.ret_type = tstruct(cls, any(uses_elem(t) for t in self.attrs.values()))
 
     # ---- declarations
 
@@ -315,19 +467,27 @@ class FunctionTranslator:
             raise Unsupported(where, "parameter without type annotation")
         if isinstance(ann, ast.Name):
             if ann.id == "int":
-                return NAT
+                return self.mod.int_ty
             if ann.id == "bool":
                 return BOOL
             if ann.id in self.elem_names:
                 return ELEM
-        if (isinstance(ann, ast.Subscript) and isinstance(ann.value, ast.Name)
-                and ann.value.id in ("Sequence", "List", "list")):
-            return tlist(self.annotation(ann.slice, where))
+        if isinstance(ann, ast.Subscript) and isinstance(ann.value, ast.Name):
+            if ann.value.id in ("Sequence", "List", "list"):
+                return tlist(self.annotation(ann.slice, where))
+            if ann.value.id == "Optional":
+                inner = self.annotation(ann.slice, where)
+                if is_opt(inner):
+                    raise Unsupported(ann, "nested Optional")
+                return topt(inner)
         raise Unsupported(ann, "unsupported type annotation")
 
     def collect_vars(self, stmts):
         for st in stmts:
-            if isinstance(st, (ast.Assign, ast.AugAssign, ast.AnnAssign)):
+            if tuple_assign(st):
+                for n, _ in tuple_assign(st):
+                    self.add_var(n, st)
+            elif isinstance(st, (ast.Assign, ast.AugAssign, ast.AnnAssign)) and stmt_target(st):
                 self.add_var(stmt_target(st)[0], st)
             elif isinstance(st, ast.If):
                 self.collect_vars(st.body)
@@ -340,6 +500,11 @@ class FunctionTranslator:
                 self.collect_vars(st.body)
 
     def add_var(self, name, node):
+        if name.startswith("self."):
+            if self.kind != "init":
+                raise Unsupported(node, "assignment to an attribute outside `__init__`")
+        elif name.startswith("self_") or name == "self":
+            raise Unsupported(node, f"local name `{name}` is reserved by the translator")
         if name != "_":
             lean_name(name, node)
         if name not in self.vars:
@@ -351,7 +516,7 @@ class FunctionTranslator:
     def infer(self):
         for _ in range(12):
             before = (dict(self.types), self.ret_type)
-            self.infer_block(self.fn.body)
+            self.infer_block(self.fn.body, {INFER})
             if before == (self.types, self.ret_type):
                 return
         raise Unsupported(self.fn, "type inference did not converge")
@@ -359,26 +524,64 @@ class FunctionTranslator:
     def set_type(self, name, ty, node):
         self.types[name] = join(self.types.get(name, BOT), ty, node)
 
-    def infer_block(self, stmts):
+    def narrow_target(self, st):
+        """`x` when `st` is `assert x is not None` on a plain local name."""
+        if (isinstance(st, ast.Assert) and isinstance(st.test, ast.Compare) and len(st.test.ops) == 1
+                and isinstance(st.test.ops[0], ast.IsNot) and isinstance(st.test.left, ast.Name)
+                and isinstance(st.test.comparators[0], ast.Constant)
+                and st.test.comparators[0].value is None):
+            return st.test.left.id
+        return None
+
+    def drop_nn(self, env, names):
+        return env - {nn(n) for n in names}
+
+    def infer_block(self, stmts, env):
+        """Joins the types of everything assigned in `stmts`; `env` carries the narrowings
+        (`assert x is not None`) in force, it is threaded through the block."""
         for st in stmts:
-            if isinstance(st, (ast.Assign, ast.AugAssign, ast.AnnAssign)):
+            if tuple_assign(st):
+                pairs = tuple_assign(st)
+                tys = [self.expr(v, env, [])[1] for _, v in pairs]
+                for (n, _), ty in zip(pairs, tys):
+                    self.set_type(n, ty, st)
+                env = self.drop_nn(env, [n for n, _ in pairs])
+            elif setitem(st):
+                key, idx, value = setitem(st)
+                ty = self.expr(value, env, [])[1]
+                for _ in idx:
+                    ty = tlist(ty)
+                if key not in self.types:
+                    raise Unsupported(st, f"unknown name `{key}`")
+                self.set_type(key, ty, st)
+            elif isinstance(st, (ast.Assign, ast.AugAssign, ast.AnnAssign)):
                 name, value = stmt_target(st)
-                self.set_type(name, self.expr(value, None, [])[1], st)
+                if isinstance(st, ast.AnnAssign):
+                    self.set_type(name, self.annotation(st.annotation, st), st)
+                self.set_type(name, self.expr(value, env, [])[1], st)
+                env = self.drop_nn(env, [name])
             elif append_call(st):
                 name, arg = append_call(st)
-                self.set_type(name, tlist(self.expr(arg, None, [])[1]), st)
+                self.set_type(name, tlist(self.expr(arg, env, [])[1]), st)
             elif isinstance(st, ast.If):
-                self.infer_block(st.body)
-                self.infer_block(st.orelse)
+                self.infer_block(st.body, env)
+                self.infer_block(st.orelse, env)
+                env = self.drop_nn(env, assigned(st.body) | assigned(st.orelse))
             elif isinstance(st, ast.For):
-                _, tys, _ = self.iter_parts(st, None, [])
+                env = self.drop_nn(env, assigned(st.body))
+                _, tys, _ = self.iter_parts(st, env, [])
                 for t, ty in zip(loop_targets(st), tys):
                     self.set_type(t, ty, st)
-                self.infer_block(st.body)
+                self.infer_block(st.body, env)
             elif isinstance(st, ast.While):
-                self.infer_block(st.body)
+                env = self.drop_nn(env, assigned(st.body))
+                self.infer_block(st.body, env)
             elif isinstance(st, ast.Return) and st.value is not None:
-                self.ret_type = join(self.ret_type, self.expr(st.value, None, [])[1], st)
+                self.ret_type = join(self.ret_type, self.expr(st.value, env, [])[1], st)
+            elif isinstance(st, ast.Assert):
+                x = self.narrow_target(st)
+                if x is not None and x in self.types and not x.startswith("self."):
+                    env = env | {nn(x)}
             elif not (is_docstring(st) or isinstance(st, (ast.Pass, ast.Break, ast.Continue, ast.Return))):
                 raise Unsupported(st)
 
@@ -400,8 +603,14 @@ class FunctionTranslator:
         if ty == NAT and want == INT:
             m = re.fullmatch(r"\d+", text)
             return f"({text} : Int)" if m else f"(({text} : Nat) : Int)"
-        if is_list(ty) and is_list(want) and (ty[1] == BOT or ty == want):
+        if fits(ty, want):
             return text
+        if is_opt(want) and not is_opt(ty):
+            # a value stored where `None` is possible too: embedded with `some`
+            return f"(some {self.coerce(text, ty, want[1], node)})"
+        if is_list(ty) and is_list(want) and is_opt(want[1]) and ty[1] == want[1][1] and not has_list(ty[1]):
+            # a fresh list of values stored as a row of cells that may be `None`
+            return f"(List.map some {text})"
         raise Unsupported(node, f"cannot use {show_ty(ty)} as {show_ty(want)}")
 
     def arith(self, node, l, lt, r, rt, op):
@@ -410,24 +619,69 @@ class FunctionTranslator:
         ty = INT if (INT in (lt, rt) or op == "-") else NAT
         return f"({self.coerce(l, lt, ty, node)} {op} {self.coerce(r, rt, ty, node)})", ty
 
+    def may_raise(self, node):
+        """Whether evaluating `node` needs a hoisted (raising) sub-expression."""
+        hoists = []
+        saved = (self.n_tmp, self.dry)
+        self.dry = True
+        try:
+            self.expr(node, {INFER}, hoists)
+        finally:
+            self.n_tmp, self.dry = saved
+        return bool(hoists)
+
+    def var_ref(self, key, node, defined):
+        if key not in self.types:
+            raise Unsupported(node, f"unknown name `{key}`")
+        if INFER not in defined and key not in defined:
+            raise Unsupported(node, f"`{key}` may be unbound here")
+        ty = self.types[key]
+        if nn(key) in defined and is_opt(ty):
+            ty = ty[1]
+        return lean_name(key, node), ty
+
+    def check_fresh(self, value, ty, node):
+        """Lists have value semantics in the translation: a list (row, table, object) that is STORED
+        (bound to a name, put into another container) must be a freshly built one, never a second
+        reference to an existing list (Python would share later in-place changes)."""
+        if not has_list(ty) or self.dry:
+            return
+        fresh = (isinstance(value, (ast.List, ast.ListComp))
+                 or (isinstance(value, ast.Call) and isinstance(value.func, ast.Name) and value.func.id == "list")
+                 or (isinstance(value, ast.BinOp) and isinstance(value.op, ast.Mult)))
+        if not fresh:
+            raise Unsupported(node, "aliasing of a list (a later in-place change would be shared)")
+
     def expr(self, node, defined, hoists):
-        """-> (Lean text, type).  `defined` = set of bound names (None during inference);
-        raising sub-expressions are appended to `hoists` as (tmp, option-valued text, Err)."""
+        """-> (Lean text, type).  `defined` = set of bound names (contains INFER during inference) and
+        of narrowings `nn(x)`; raising sub-expressions are appended to `hoists` as
+        (tmp, option-valued text, Err) or (tmp, Except-valued text, None)."""
         if isinstance(node, ast.Constant):
             v = node.value
             if isinstance(v, bool):
                 return ("true" if v else "false"), BOOL
             if isinstance(v, int) and v >= 0:
                 return str(v), NAT
+            if v is None:
+                return "none", topt(BOT)
             raise Unsupported(node, "unsupported literal")
         if isinstance(node, ast.Name):
             if node.id == "_":
                 raise Unsupported(node, "reading `_`")
-            if node.id not in self.types:
-                raise Unsupported(node, f"unknown name `{node.id}`")
-            if defined is not None and node.id not in defined:
-                raise Unsupported(node, f"`{node.id}` may be unbound here")
-            return lean_name(node.id, node), self.types[node.id]
+            if node.id == "self" and self.kind == "init":
+                raise Unsupported(node, "`self` used as a value inside `__init__`")
+            return self.var_ref(node.id, node, defined)
+        if isinstance(node, ast.Attribute):
+            key = target_key(node)
+            if key is None or self.cls is None:
+                raise Unsupported(node, "unsupported attribute access")
+            if self.kind == "init":
+                return self.var_ref(key, node, defined)
+            attrs = self.mod.classes[self.cls]
+            if node.attr not in attrs:
+                raise Unsupported(node, f"unknown attribute `{key}`")
+            self.var_ref("self", node, defined)
+            return f"self.{lean_name(node.attr, node)}", attrs[node.attr]
         if isinstance(node, ast.UnaryOp):
             if isinstance(node.op, ast.USub):
                 t, ty = self.expr(node.operand, defined, hoists)
@@ -437,6 +691,8 @@ class FunctionTranslator:
                 return f"(!{self.boolval(node.operand, defined, hoists)})", BOOL
             raise Unsupported(node, "unsupported unary operator")
         if isinstance(node, ast.BinOp):
+            if isinstance(node.op, ast.Mult) and (isinstance(node.left, ast.List) or isinstance(node.right, ast.List)):
+                return self.replicate(node, defined, hoists)
             l, lt = self.expr(node.left, defined, hoists)
             r, rt = self.expr(node.right, defined, hoists)
             op = node.op
@@ -450,6 +706,17 @@ class FunctionTranslator:
                 return self.arith(node, l, lt, r, rt, "*")
             bit = {ast.BitAnd: "&&&", ast.BitOr: "|||", ast.BitXor: "^^^", ast.LShift: "<<<",
                    ast.RShift: ">>>", ast.Pow: "^"}.get(type(op))
+            if bit and INT in (lt, rt) and isinstance(op, (ast.Pow, ast.LShift, ast.RShift)):
+                # ints that may be negative: exact Python semantics, partial operations checked
+                self.need(lt, (NAT, INT), node, f"`{bit}`")
+                self.need(rt, (NAT, INT), node, f"`{bit}`")
+                if rt == NAT and isinstance(op, ast.Pow):
+                    return f"({l} ^ {r})", lt
+                fn, err = {ast.Pow: ("Py.powInt?", ".OutOfSubset"), ast.LShift: ("Py.shlInt?", ".ValueError"),
+                           ast.RShift: ("Py.shrInt?", ".ValueError")}[type(op)]
+                t = self.tmp()
+                hoists.append((t, f"{fn} {self.coerce(l, lt, INT, node)} {self.coerce(r, rt, INT, node)}", err))
+                return t, INT
             if bit:
                 self.need(lt, (NAT,), node, f"`{bit}` on a possibly negative int")
                 self.need(rt, (NAT,), node, f"`{bit}` on a possibly negative int")
@@ -489,9 +756,12 @@ class FunctionTranslator:
         if isinstance(node, ast.List):
             ty = BOT
             items = [self.expr(e, defined, hoists) for e in node.elts]
-            for _, t in items:
+            for (_, t), e in zip(items, node.elts):
                 ty = join(ty, t, node)
+                self.check_fresh(e, t, e)
             return "[" + ", ".join(self.coerce(t, tt, ty, node) for t, tt in items) + "]", tlist(ty)
+        if isinstance(node, ast.ListComp):
+            return self.listcomp(node, defined, hoists)
         if isinstance(node, ast.Subscript):
             s, st = self.expr(node.value, defined, hoists)
             if isinstance(node.slice, ast.Slice):
@@ -499,34 +769,107 @@ class FunctionTranslator:
             i, it = self.expr(node.slice, defined, hoists)
             if not is_list(st) and not (self.dry and st == BOT):
                 raise Unsupported(node, "indexing something that is not a list")
-            self.need(it, (NAT,), node, "index that may be negative")
+            self.need(it, (NAT, INT) if self.mod.int_ty == INT else (NAT,), node, "index that may be negative")
             t = self.tmp()
-            hoists.append((t, f"{s}[{i}]?", ".IndexError"))
+            # a Python int index wraps around when negative (Py.getInt?), exactly as `list.__getitem__`
+            hoists.append((t, f"Py.getInt? {s} {i}" if it == INT else f"{s}[{i}]?", ".IndexError"))
             return t, (st[1] if is_list(st) else BOT)
         if isinstance(node, ast.Call):
             return self.call(node, defined, hoists)
         raise Unsupported(node)
 
+    def replicate(self, node, defined, hoists):
+        """`[e] * n` / `n * [e]` (`n <= 0` gives the empty list)."""
+        lst, cnt = (node.left, node.right) if isinstance(node.left, ast.List) else (node.right, node.left)
+        if len(lst.elts) != 1:
+            raise Unsupported(node, "repetition of a list display with several elements")
+        if isinstance(node.left, ast.List):
+            e, et = self.expr(lst.elts[0], defined, hoists)
+            n, nt = self.expr(cnt, defined, hoists)
+        else:
+            n, nt = self.expr(cnt, defined, hoists)
+            e, et = self.expr(lst.elts[0], defined, hoists)
+        self.need(nt, (NAT, INT), node, "list repetition count")
+        if has_list(et):
+            raise Unsupported(node, "repetition of a list of lists (the copies would be one shared list)")
+        return f"(List.replicate {f'(Int.toNat {n})' if nt == INT else n} {e})", tlist(et)
+
+    def listcomp(self, node, defined, hoists):
+        """`[e for x in seq]` with a non-raising `e`: `List.map (fun x => e) seq`."""
+        if len(node.generators) != 1 or node.generators[0].ifs or node.generators[0].is_async:
+            raise Unsupported(node, "comprehension with conditions / several generators")
+        gen = node.generators[0]
+        targets = loop_targets(gen)
+        for t in targets:
+            if t != "_" and (t in self.types or t in self.params):
+                raise Unsupported(node, f"comprehension variable `{t}` is also a variable of the function")
+        seq, tys, pat = self.iter_parts(gen, defined, hoists)
+        saved = dict(self.types)
+        inner = []
+        try:
+            for t, ty in zip(targets, tys):
+                if t != "_":
+                    lean_name(t, node)
+                    self.types[t] = ty
+            e, et = self.expr(node.elt, defined | {t for t in targets if t != "_"}, inner)
+        finally:
+            self.types = saved
+        if inner:
+            raise Unsupported(node, "raising expression inside a comprehension")
+        self.check_fresh(node.elt, et, node.elt)
+        return f"(List.map (fun {pat} => {e}) {seq})", tlist(et)
+
     def call(self, node, defined, hoists):
         if node.keywords:
             raise Unsupported(node, "keyword arguments")
         f = node.func
+        if isinstance(f, ast.Name) and f.id in self.mod.sigs:
+            sig = self.mod.sigs[f.id]
+            if len(node.args) != len(sig["param_tys"]):
+                raise Unsupported(node, "wrong number of arguments")
+            args = []
+            for a, want in zip(node.args, sig["param_tys"]):
+                t, ty = self.expr(a, defined, hoists)
+                if ty == INT and want == NAT:
+                    raise Unsupported(a, "argument that may be negative for a parameter translated as Nat")
+                args.append(self.coerce(t, ty, want, a))
+            t = self.tmp()
+            hoists.append((t, f"{sig['name']}{self.mod.elem_args if sig['elem'] else ''} " + " ".join(args), None))
+            return t, sig["ret_ty"]
+        if isinstance(f, ast.Name) and f.id in ("min", "max") and len(node.args) == 2:
+            a, at = self.expr(node.args[0], defined, hoists)
+            b, bt = self.expr(node.args[1], defined, hoists)
+            ty = join(at, bt, node)
+            if ty in (NAT, INT):
+                return f"({f.id} {self.coerce(a, at, ty, node)} {self.coerce(b, bt, ty, node)})", ty
+            if self.dry and has_bot(ty):
+                return "?", (ty[1] if is_opt(ty) else ty)
+            if f.id == "min" and self.mod.has_lt and ty in (ELEM, topt(ELEM)):
+                t = self.tmp()
+                fn = "Py.pyMin" if ty == ELEM else "Py.pyMinOpt"
+                hoists.append((t, f"{fn} lt_ {self.coerce(a, at, ty, node)} {self.coerce(b, bt, ty, node)}", None))
+                return t, ELEM
+            raise Unsupported(node, f"`{f.id}` on values of type {show_ty(ty)}")
         if isinstance(f, ast.Name) and len(node.args) == 1:
             if f.id == "len":
                 s, st = self.expr(node.args[0], defined, hoists)
                 if not is_list(st) and not (self.dry and st == BOT):
                     raise Unsupported(node, "len of something that is not a list")
-                return f"{s}.length" if re.fullmatch(r"[\w']+", s) else f"({s}).length", NAT
+                return f"{s}.length" if re.fullmatch(r"[\w'.]+", s) else f"({s}).length", NAT
             if f.id == "bool":
                 return f"(decide ({self.prop(node.args[0], defined, hoists)}))", BOOL
             if f.id == "list":
                 s, st = self.expr(node.args[0], defined, hoists)
                 if not is_list(st) and not (self.dry and st == BOT):
                     raise Unsupported(node, "list() of something that is not a list")
+                if is_list(st) and has_list(st[1]):
+                    raise Unsupported(node, "shallow copy of a list of lists (the rows would be shared)")
                 return s, st
         if isinstance(f, ast.Attribute):
             recv, rt = self.expr(f.value, defined, hoists)
             if f.attr == "bit_length" and not node.args:
+                if rt == INT:
+                    return f"(Py.bitLengthInt {recv})", NAT
                 self.need(rt, (NAT,), node, "bit_length of a possibly negative int")
                 return f"(Py.bitLength {recv})", NAT
             if f.attr == "index" and len(node.args) == 1:
@@ -535,6 +878,8 @@ class FunctionTranslator:
                 v, vt = self.expr(node.args[0], defined, hoists)
                 if is_list(rt) and not self.dry and vt != rt[1]:
                     raise Unsupported(node, ".index with an argument of another type")
+                if not self.mod.has_deq:
+                    raise Unsupported(node, ".index needs `==` on the elements")
                 t = self.tmp()
                 hoists.append((t, f"Py.index? {recv} {v}", ".ValueError"))
                 return t, NAT
@@ -575,12 +920,25 @@ class FunctionTranslator:
         if isinstance(node, ast.Compare):
             if len(node.ops) != 1:
                 raise Unsupported(node, "chained comparison")
+            op = node.ops[0]
+            if isinstance(op, (ast.Is, ast.IsNot)):
+                c = node.comparators[0]
+                if not (isinstance(c, ast.Constant) and c.value is None):
+                    raise Unsupported(node, "`is` with anything but None")
+                l, lt = self.expr(node.left, defined, hoists)
+                if is_opt(lt) or (self.dry and lt == BOT):
+                    return f"Option.{'isNone' if isinstance(op, ast.Is) else 'isSome'} {l} = true"
+                # a value whose type excludes None
+                return "False" if isinstance(op, ast.Is) else "True"
             l, lt = self.expr(node.left, defined, hoists)
             r, rt = self.expr(node.comparators[0], defined, hoists)
-            op = node.ops[0]
             ty = join(lt, rt, node)
             l, r = self.coerce(l, lt, ty, node), self.coerce(r, rt, ty, node)
             if isinstance(op, (ast.Eq, ast.NotEq)):
+                if uses_elem(ty) and not self.mod.has_deq:
+                    raise Unsupported(node, "`==` on elements that only support `<`")
+                if is_struct(ty):
+                    raise Unsupported(node, "`==` on objects")
                 return f"{l} {'=' if isinstance(op, ast.Eq) else '≠'} {r}"
             sym = {ast.Lt: "<", ast.LtE: "≤", ast.Gt: ">", ast.GtE: "≥"}.get(type(op))
             if sym is None:
@@ -593,6 +951,35 @@ class FunctionTranslator:
 
     # ---- statements
 
+    def is_pure_block(self, stmts):
+        """No escape (return / break / continue / loop / assert / item assignment / raising
+        expression) anywhere inside."""
+        for st in stmts:
+            if is_docstring(st) or isinstance(st, ast.Pass):
+                continue
+            if tuple_assign(st):
+                if any(self.may_raise(v) for _, v in tuple_assign(st)):
+                    return False
+                continue
+            if setitem(st):
+                return False
+            if isinstance(st, (ast.Assign, ast.AugAssign, ast.AnnAssign)):
+                if self.may_raise(stmt_target(st)[1]):
+                    return False
+                continue
+            ap = append_call(st)
+            if ap:
+                if self.may_raise(ap[1]):
+                    return False
+                continue
+            if isinstance(st, ast.If):
+                if self.may_raise(st.test) or not self.is_pure_block(st.body) \
+                        or not self.is_pure_block(st.orelse):
+                    return False
+                continue
+            return False
+        return True
+
     def count(self, lines):
         self.emitted += len(lines)
         if self.emitted > self.MAX_LINES:
@@ -601,11 +988,29 @@ class FunctionTranslator:
 
     def wrap_hoists(self, hoists, lines, ctx):
         for t, opt, err in reversed(hoists):
-            lines = [f"match {opt} with", f"| none => {ctx.err(err)}", f"| some {t} =>"] + indent(lines)
+            if err is None:
+                lines = [f"match {opt} with", f"| .error e_ => {ctx.err('e_')}", f"| .ok {t} =>"] + indent(lines)
+            else:
+                lines = [f"match {opt} with", f"| none => {ctx.err(err)}", f"| some {t} =>"] + indent(lines)
         return self.count(lines)
 
     def state_pat(self, names):
         return tup([lean_name(n) for n in names])
+
+    def no_narrowed(self, names, defined, node, what):
+        for v in names:
+            if nn(v) in defined:
+                raise Unsupported(node, f"`{v}` is narrowed by an assert and {what}")
+
+    def check_mutable(self, name, defined, st):
+        if name in self.params:
+            raise Unsupported(st, "in-place change of a parameter (mutation visible to the caller)")
+        if self.kind == "method" and name.startswith("self."):
+            raise Unsupported(st, "in-place change of an attribute outside `__init__`")
+        if name not in self.types:
+            raise Unsupported(st, f"unknown name `{name}`")
+        if name not in defined:
+            raise Unsupported(st, f"`{name}` may be unbound here")
 
     def comp(self, stmts, k, ctx, defined):
         """Lean lines (an expression of the block's result type) for `stmts`, then `k(defined)`."""
@@ -619,6 +1024,59 @@ class FunctionTranslator:
         if is_docstring(st) or isinstance(st, ast.Pass):
             return cont(defined)
 
+        if tuple_assign(st):
+            pairs = tuple_assign(st)
+            hoists = []
+            vals = []
+            for name, value in pairs:
+                if name == "_":
+                    raise Unsupported(st, "assignment to `_`")
+                text, ty = self.expr(value, defined, hoists)
+                want = self.types[name]
+                self.check_fresh(value, want, st)
+                if has_bot(want):
+                    raise Unsupported(st, f"cannot infer the type of `{name}`")
+                vals.append(self.coerce(text, ty, want, st))
+            names = [n for n, _ in pairs]
+            line = (f"let {self.state_pat(names)} : {tup_ty([self.types[n] for n in names])} := "
+                    f"({', '.join(vals)})")
+            after = self.drop_nn(defined, names) | set(names)
+            return self.wrap_hoists(hoists, [line] + cont(after), ctx)
+
+        if setitem(st):
+            key, idx, value = setitem(st)
+            self.check_mutable(key, defined, st)
+            want = self.types[key]
+            hoists = []
+            text, ty = self.expr(value, defined, hoists)  # Python evaluates the right-hand side first
+            cell = want
+            for _ in idx:
+                if not is_list(cell):
+                    raise Unsupported(st, "item assignment on something that is not a list")
+                cell = cell[1]
+            if has_bot(want):
+                raise Unsupported(st, f"cannot infer the type of `{key}`")
+            self.check_fresh(value, cell, st)
+            v = self.coerce(text, ty, cell, st)
+            base = lean_name(key, st)
+            conts = [base]
+            ixs = []
+            for n, ix in enumerate(idx):
+                i, it = self.expr(ix, defined, hoists)
+                self.need(it, (NAT, INT) if self.mod.int_ty == INT else (NAT,), st, "index that may be negative")
+                ixs.append((i, it))
+                if n + 1 < len(idx):
+                    t = self.tmp()
+                    hoists.append((t, f"Py.getInt? {conts[-1]} {i}" if it == INT else f"{conts[-1]}[{i}]?",
+                                   ".IndexError"))
+                    conts.append(t)
+            for c, (i, it) in zip(reversed(conts), reversed(ixs)):
+                t = self.tmp()
+                hoists.append((t, f"{'Py.setInt?' if it == INT else 'Py.setNat?'} {c} {i} {v}", ".IndexError"))
+                v = t
+            line = f"let {base} : {show_ty(want)} := {v}"
+            return self.wrap_hoists(hoists, [line] + cont(defined), ctx)
+
         if isinstance(st, (ast.Assign, ast.AugAssign, ast.AnnAssign)):
             name, value = stmt_target(st)
             if name == "_":
@@ -628,30 +1086,52 @@ class FunctionTranslator:
             want = self.types[name]
             if is_list(want) and isinstance(value, ast.Name):
                 raise Unsupported(st, "aliasing of a list (a later append would be shared)")
+            self.check_fresh(value, want, st)
             if has_bot(want):
                 raise Unsupported(st, f"cannot infer the type of `{name}`")
             line = f"let {lean_name(name, st)} : {show_ty(want)} := {self.coerce(text, ty, want, st)}"
-            return self.wrap_hoists(hoists, [line] + cont(defined | {name}), ctx)
+            after = self.drop_nn(defined, [name]) | {name}
+            return self.wrap_hoists(hoists, [line] + cont(after), ctx)
 
         ap = append_call(st)
         if ap:
             name, arg = ap
             if name in self.params:
                 raise Unsupported(st, "append to a parameter (mutation visible to the caller)")
-            if name not in defined:
-                raise Unsupported(st, f"`{name}` may be unbound here")
+            self.check_mutable(name, defined, st)
             want = self.types[name]
             if not is_list(want) or has_bot(want):
                 raise Unsupported(st, "append to something that is not a list")
             hoists = []
             text, ty = self.expr(arg, defined, hoists)
+            self.check_fresh(arg, want[1], st)
             line = (f"let {lean_name(name, st)} : {show_ty(want)} := "
                     f"{lean_name(name, st)} ++ [{self.coerce(text, ty, want[1], st)}]")
             return self.wrap_hoists(hoists, [line] + cont(defined), ctx)
 
+        if isinstance(st, ast.Assert):
+            if st.msg is not None and not (isinstance(st.msg, ast.Constant) and isinstance(st.msg.value, str)):
+                raise Unsupported(st, "assert with a computed message")
+            x = self.narrow_target(st)
+            if x is not None and x in self.types and not x.startswith("self."):
+                text, ty = self.var_ref(x, st, defined)
+                if not is_opt(ty):
+                    return cont(defined)  # the type already excludes None: the assertion holds
+                if has_bot(ty):
+                    raise Unsupported(st, f"cannot infer the type of `{x}`")
+                lines = [f"match {text} with", f"| none => {ctx.err('.AssertionError')}",
+                         f"| some {text} =>"] + indent(cont(defined | {nn(x)}))
+                return self.count(lines)
+            hoists = []
+            c = self.prop(st.test, defined, hoists)
+            lines = [f"if {c} then"] + indent(cont(defined)) + ["else", "  " + ctx.err(".AssertionError")]
+            return self.wrap_hoists(hoists, lines, ctx)
+
         if isinstance(st, ast.Return):
             if st.value is None:
                 raise Unsupported(st, "return without a value")
+            if self.kind == "init":
+                raise Unsupported(st, "return inside `__init__`")
             if rest:
                 raise Unsupported(rest[0], "unreachable statement")
             hoists = []
@@ -677,10 +1157,11 @@ class FunctionTranslator:
     def comp_if(self, st, rest, k, ctx, defined):
         hoists = []
         c = self.prop(st.test, defined, hoists)
-        if is_pure_block(st.body) and is_pure_block(st.orelse):
+        if self.is_pure_block(st.body) and self.is_pure_block(st.orelse):
+            touched = assigned(st.body) | assigned(st.orelse)
+            self.no_narrowed(touched, defined, st, "assigned under an `if`")
             after = defined | (assigned(st.body) & assigned(st.orelse))
-            written = [v for v in self.vars
-                       if v in (assigned(st.body) | assigned(st.orelse)) and v in after]
+            written = [v for v in self.vars if v in touched and v in after]
             if not written:
                 return self.wrap_hoists(hoists, self.comp(rest, k, ctx, defined), ctx)
             for v in written:
@@ -708,19 +1189,32 @@ class FunctionTranslator:
     # ---- loops
 
     def iter_parts(self, st, defined, hoists):
-        """-> (Lean list expression, element types per target, Lean pattern of one element)."""
+        """-> (Lean list expression, element types per target, Lean pattern of one element).
+        `st` is a `for` statement or the generator of a comprehension."""
         it = st.iter
         targets = loop_targets(st)
         names = ["_" if t == "_" else lean_name(t, st) for t in targets]
         if isinstance(it, ast.Call) and isinstance(it.func, ast.Name) and not it.keywords:
             if it.func.id == "range" and len(it.args) in (1, 2) and len(targets) == 1:
-                args = []
+                args, tys = [], []
                 for a in it.args:
                     t, ty = self.expr(a, defined, hoists)
-                    self.need(ty, (NAT,), a, "range bound that may be negative")
+                    if self.mod.int_ty == INT:
+                        self.need(ty, (NAT, INT), a, "range bound")
+                    else:
+                        self.need(ty, (NAT,), a, "range bound that may be negative")
                     args.append(t)
-                text = (f"(List.range {args[0]})" if len(args) == 1
-                        else f"(List.range' {args[0]} ({args[1]} - {args[0]}))")
+                    tys.append(ty)
+                if len(args) == 1:
+                    # range(n) with n <= 0 is empty: Int.toNat
+                    text = f"(List.range (Int.toNat {args[0]}))" if tys[0] == INT else f"(List.range {args[0]})"
+                elif tys[0] == INT:
+                    raise Unsupported(it, "range whose start may be negative")
+                elif tys[1] == INT:
+                    text = (f"(List.range' {args[0]} (Int.toNat ({args[1]} - "
+                            f"{self.coerce(args[0], NAT, INT, it)})))")
+                else:
+                    text = f"(List.range' {args[0]} ({args[1]} - {args[0]}))"
                 return text, [NAT], names[0]
             if it.func.id == "enumerate" and len(it.args) == 1 and len(targets) == 2:
                 s, sty = self.expr(it.args[0], defined, hoists)
@@ -754,20 +1248,28 @@ class FunctionTranslator:
                 raise Unsupported(st, f"cannot infer the type of `{v}`")
         used = reads(st.body) | (reads([st.test]) if isinstance(st, ast.While) else set())
         free = [v for v in self.vars if v in used and v in defined and v not in state and v not in targets]
+        self.no_narrowed(state + free, defined, st, "used by a loop")
         self.n_loops += 1
         return state, free, f"{self.name}.loop{self.n_loops}"
 
-    def binder_text(self, names):
+    def elem_used(self):
+        return any(uses_elem(self.types[v]) for v in self.vars) or uses_elem(self.ret_type)
+
+    def elem_args(self):
+        return self.mod.elem_args if self.elem_used() else ""
+
+    def binder_text(self, names, params=False):
         out = ""
-        if any(uses_elem(self.types[v]) for v in self.vars) or uses_elem(self.ret_type):
-            out += " {α : Type} [DecidableEq α]"
+        if self.elem_used():
+            out += self.mod.elem_binders
         for v in names:
-            out += f" ({lean_name(v)} : {show_ty(self.types[v])})"
+            ty = self.param_types[v] if params else self.types[v]
+            out += f" ({lean_name(v)} : {show_ty(ty)})"
         return out
 
     def loop_call_site(self, name, free, seed, state, cont, ctx, defined):
         pat = self.state_pat(state)
-        args = "".join(" " + lean_name(v) for v in free)
+        args = self.elem_args() + "".join(" " + lean_name(v) for v in free)
         ret = ctx.ret("v_")
         lines = [f"match {name}{args} {seed} {pat} with",
                  f"| .err e_ => {ctx.err('e_')}"]
@@ -789,11 +1291,11 @@ class FunctionTranslator:
         pat = self.state_pat(state)
         sigma = tup_ty([self.types[v] for v in state])
         rho = paren_ty(self.ret_type)
-        args = "".join(" " + lean_name(v) for v in free)
+        args = self.elem_args() + "".join(" " + lean_name(v) for v in free)
         rec = [f"{name}{args} it_ {pat}"]
         lctx = Ctx(ret=lambda v: [f".ret {v}"], err=lambda e: f".err {e}",
                    brk=lambda d: [f".next {pat}"], cont=lambda d: rec)
-        inner = defined | {t for t in targets if t != "_"}
+        inner = self.drop_nn(defined, assigned(st.body)) | {t for t in targets if t != "_"}
         body = self.comp(st.body, lambda d: rec, lctx, inner)
         elem_ty = tup_ty(list(reversed(tys))) if len(tys) == 2 else show_ty(tys[0])
         text = [f"def {name}{self.binder_text(free)} :",
@@ -822,6 +1324,8 @@ class FunctionTranslator:
             raise Unsupported(st, "continue inside a while loop")
         hits = []
         for s in st.body:
+            if tuple_assign(s) and x in [n for n, _ in tuple_assign(s)]:
+                hits.append(False)
             tv = stmt_target(s) if isinstance(s, (ast.Assign, ast.AugAssign, ast.AnnAssign)) else None
             if tv and tv[0] == x:
                 v = tv[1]
@@ -839,18 +1343,18 @@ class FunctionTranslator:
 
     def comp_while(self, st, cont, ctx, defined):
         x = self.while_variant(st)
-        if expr_may_raise(st.test):
+        if self.may_raise(st.test):
             raise Unsupported(st, "raising expression in a loop condition")
         state, free, name = self.loop_frame(st, defined, [])
         c = self.prop(st.test, defined, [])
         pat = self.state_pat(state)
         sigma = tup_ty([self.types[v] for v in state])
         rho = paren_ty(self.ret_type)
-        args = "".join(" " + lean_name(v) for v in free)
+        args = self.elem_args() + "".join(" " + lean_name(v) for v in free)
         rec = [f"{name}{args} fuel_ {pat}"]
         lctx = Ctx(ret=lambda v: [f".ret {v}"], err=lambda e: f".err {e}",
                    brk=lambda d: [f".next {pat}"], cont=None)
-        body = self.comp(st.body, lambda d: rec, lctx, defined)
+        body = self.comp(st.body, lambda d: rec, lctx, self.drop_nn(defined, assigned(st.body)))
         text = [f"def {name}{self.binder_text(free)} :",
                 f"    Nat → {paren_ty(sigma)} → Py.Ctl {paren_ty(sigma)} {rho}",
                 f"  | 0, {pat} => if {c} then .err .Diverged else .next {pat}",
@@ -869,21 +1373,40 @@ class FunctionTranslator:
             raise Unsupported(self.fn, "cannot infer the return type (no `return e`?)")
 
         def fall_off(d):
-            raise Unsupported(self.fn, "the function may fall off its end (returns None)")
+            if self.kind != "init":
+                raise Unsupported(self.fn, "the function may fall off its end (returns None)")
+            missing = [a for a in self.attrs if "self." + a not in d]
+            if missing:
+                raise Unsupported(self.fn, f"`self.{missing[0]}` may be unset at the end of `__init__`")
+            fields = ", ".join(f"{lean_name(a)} := {lean_name('self.' + a)}" for a in self.attrs)
+            return [f".ok {{ {fields} }}"]
 
         ctx = Ctx(ret=lambda v: [f".ok {v}"], err=lambda e: f".error {e}")
         body = self.comp(list(self.fn.body), fall_off, ctx, set(self.params))
-        head = (f"def {self.name}{self.binder_text(self.params)} : "
+        # a parameter re-assigned at a wider type (`stop = min(stop, last)` with an Int `last`)
+        casts = [f"let {lean_name(p)} : {show_ty(self.types[p])} := "
+                 f"{self.coerce(lean_name(p), self.param_types[p], self.types[p], self.fn)}"
+                 for p in self.params if self.types[p] != self.param_types[p]]
+        head = (f"def {self.name}{self.binder_text(self.params, params=True)} : "
                 f"Except Py.Err {paren_ty(self.ret_type)} :=")
-        return "\n\n".join(self.aux + ["\n".join([head] + indent(body))])
+        return "\n\n".join(self.aux + ["\n".join([head] + indent(casts + body))])
+
+    def structure_text(self):
+        """The Lean structure of a class, from the attributes its `__init__` stores."""
+        lines = [f"structure {self.cls}{' (α : Type)' if self.ret_type[2] else ''} where"]
+        lines += [f"  {lean_name(a)} : {show_ty(t)}" for a, t in self.attrs.items()]
+        return "\n".join(lines)
 
     def signature(self):
         return {
             "name": self.name,
-            "binders": self.binder_text(self.params).strip(),
+            "binders": self.binder_text(self.params, params=True).strip(),
             "args": [lean_name(p) for p in self.params],
-            "arg_types": [show_ty(self.types[p]) for p in self.params],
+            "arg_types": [show_ty(self.param_types[p]) for p in self.params],
+            "param_tys": [self.param_types[p] for p in self.params],
             "ret": show_ty(self.ret_type),
+            "ret_ty": self.ret_type,
+            "elem": self.elem_used(),
         }
 
 
@@ -893,11 +1416,12 @@ class FunctionTranslator:
 
 class ModuleSpec:
     def __init__(self, prop, source, namespace, functions, defs_file, equiv_file, proofs_module,
-                 equiv, property_modules, refute, imports=()):
+                 equiv, property_modules, refute, imports=(), int_ty=NAT, elem_lt=False,
+                 equiv_custom=None, refute_custom=None, refute_prelude=(), note=None):
         self.prop = prop
         self.source = source  # path relative to the repository
         self.namespace = namespace
-        self.functions = functions
+        self.functions = functions  # python functions, `Class.method` for methods (`__init__` first)
         self.defs_file = defs_file  # relative to lean/
         self.equiv_file = equiv_file
         self.proofs_module = proofs_module
@@ -905,16 +1429,64 @@ class ModuleSpec:
         self.property_modules = property_modules  # Properties/*.lean that depend on the tie
         self.refute = refute  # python function -> Lean list expression of argument tuples
         self.imports = imports
+        self.int_ty = int_ty  # NAT: `int` parameters are non-negative (precondition); INT: any Python int
+        self.elem_lt = elem_lt  # elements support `<` only: explicit parameter `lt_` instead of DecidableEq
+        # [(theorem name, binders, statement, proof term)]: statements that are not `f args = model args`
+        self.equiv_custom = equiv_custom
+        # [(label, Lean list of argument tuples, pattern, generated side, model side)]
+        self.refute_custom = refute_custom
+        self.refute_prelude = list(refute_prelude)
+        self.note = note
 
     def module_name(self, rel):
         return rel[:-5].replace("/", ".")
+
+    def module_ctx(self, elem_names):
+        if self.elem_lt:
+            return ModuleCtx(elem_names, self.int_ty,
+                             elem_binders=" {α : Type} (lt_ : α → α → Except Py.Err Bool)",
+                             elem_args=" lt_", has_deq=False, has_lt=True)
+        return ModuleCtx(elem_names, self.int_ty)
+
+
+def class_parts(cls, spec):
+    """The methods of a translated class; everything else in a class body is rejected (an
+    untranslated method could change the attributes behind the back of the translated ones)."""
+    for b in cls.bases:
+        ok = (isinstance(b, ast.Subscript) and isinstance(b.value, ast.Name) and b.value.id == "Generic")
+        if not ok:
+            raise Unsupported(b, "class with a base other than Generic[...]")
+    if cls.keywords or cls.decorator_list:
+        raise Unsupported(cls, "class with keywords / decorators")
+    methods = {}
+    for st in cls.body:
+        if is_docstring(st) or isinstance(st, ast.Pass):
+            continue
+        if isinstance(st, ast.FunctionDef):
+            if f"{cls.name}.{st.name}" not in spec.functions:
+                raise Unsupported(st, f"method `{cls.name}.{st.name}` is not covered by the translation")
+            methods[st.name] = st
+            continue
+        raise Unsupported(st, "unsupported statement in a class body")
+    return methods
 
 
 def translate_source(text, spec):
     """-> (Lean text of the definitions, signatures).  Raises Unsupported."""
     tree = ast.parse(text)
-    fns = {}
+    fns, classes = {}, {}
+    wanted = {f.split(".")[0] for f in spec.functions if "." in f}
     for st in tree.body:
+        bound = []
+        if isinstance(st, (ast.Import, ast.ImportFrom)):
+            bound = [(a.asname or a.name).split(".")[0] for a in st.names]
+        elif isinstance(st, (ast.FunctionDef, ast.ClassDef)):
+            bound = [st.name]
+        elif isinstance(st, ast.Assign):
+            bound = [t.id for t in st.targets if isinstance(t, ast.Name)]
+        for b in bound:
+            if b in BUILTINS or b == "*":
+                raise Unsupported(st, f"the module rebinds `{b}`, a builtin the translator relies on")
         if is_docstring(st) or isinstance(st, (ast.Import, ast.ImportFrom)):
             continue
         if (isinstance(st, ast.Assign) and isinstance(st.value, ast.Call)
@@ -923,31 +1495,55 @@ def translate_source(text, spec):
         if isinstance(st, ast.FunctionDef):
             fns[st.name] = st
             continue
+        if isinstance(st, ast.ClassDef) and wanted:
+            # classes that are not translated (typing protocols) are ignored: any use of them is rejected
+            if st.name in wanted:
+                classes[st.name] = class_parts(st, spec)
+            continue
         raise Unsupported(st, "unsupported top-level statement")
     elem = [st.targets[0].id for st in tree.body
             if isinstance(st, ast.Assign) and isinstance(st.targets[0], ast.Name)]
+    mod = spec.module_ctx(elem or ("Element",))
     out, sigs = [], {}
     for name in spec.functions:
-        if name not in fns:
+        cls = None
+        if "." in name:
+            cls, meth = name.split(".")
+            if cls not in classes or meth not in classes[cls]:
+                raise Unsupported(tree, f"method `{name}` not found in {spec.source}")
+            fn = classes[cls][meth]
+        elif name in fns:
+            fn = fns[name]
+        else:
             raise Unsupported(tree, f"function `{name}` not found in {spec.source}")
-        for sub in ast.walk(fns[name]):
-            if isinstance(sub, ast.Call) and isinstance(sub.func, ast.Name) and sub.func.id in fns:
+        for sub in ast.walk(fn):
+            if isinstance(sub, ast.Call) and isinstance(sub.func, ast.Name) \
+                    and (sub.func.id in fns or sub.func.id in classes) and sub.func.id not in mod.sigs:
                 raise Unsupported(sub, "call of another function of the module")
-        ft = FunctionTranslator(fns[name], elem_names=elem or ("Element",))
-        out.append(f"/-- `{name}` (line {fns[name].lineno} of {spec.source}). -/\n" + ft.translate())
+        ft = FunctionTranslator(fn, mod=mod, cls=cls)
+        text_fn = ft.translate()
+        doc = f"/-- `{name}` (line {fn.lineno} of {spec.source}). -/\n"
+        if ft.kind == "init":
+            mod.classes[cls] = ft.attrs
+            out.append(f"/-- class `{cls}`: the attributes stored by `__init__`. -/\n" + ft.structure_text())
+        out.append(doc + text_fn)
         sigs[name] = ft.signature()
+        if cls is None:
+            mod.sigs[name] = sigs[name]
     return "\n\n".join(out), sigs
 
 
 def defs_file_text(spec, sha, body):
+    note = spec.note or (
+        "  PRECONDITION recorded by the translator: parameters annotated `int` are non-negative\n"
+        "  (translated as `Nat`).  `Except.error e` = the Python function raises `e`.\n")
     return (
         "/-\n"
         f"  GENERATED by harness/translate_py.py from {spec.source} — do not edit.\n"
         f"  source-sha256: {sha}\n"
         "  Mechanical translation of the function bodies into the normal form described in\n"
         "  harness/translate_py.py and SRVerif/Model/PyRt.lean (core Lean only).\n"
-        "  PRECONDITION recorded by the translator: parameters annotated `int` are non-negative\n"
-        "  (translated as `Nat`).  `Except.error e` = the Python function raises `e`.\n"
+        + note +
         "-/\n"
         "import SRVerif.Model.PyRt\n\n"
         "set_option linter.unusedVariables false\n\n"
@@ -978,6 +1574,11 @@ def equiv_file_text(spec, sha, sigs):
         "-/",
         f"import {spec.proofs_module}",
     ] + [f"import {m}" for m in spec.imports] + ["", f"namespace {spec.namespace}", "open SR", ""]
+    if spec.equiv_custom is not None:
+        for thm, binders, statement, proof in spec.equiv_custom:
+            lines += [f"theorem {thm} {binders} :", f"    {statement} :=", f"  {proof}", ""]
+        lines += [f"end {spec.namespace}", ""]
+        return "\n".join(lines)
     for name in spec.functions:
         sig = sigs[name]
         proof = spec.equiv[name][3]
@@ -1023,7 +1624,72 @@ SUBSEQ = ModuleSpec(
     },
 )
 
-SPECS = {"C18": SUBSEQ}
+RMQ = ModuleSpec(
+    prop="C17",
+    source="src/superrec2/utils/range_min_query.py",
+    namespace="SR.Gen.Rmq",
+    functions=["_ilog2", "RangeMinQuery.__init__", "RangeMinQuery.__call__"],
+    defs_file="SRVerif/Generated/RmqPy.lean",
+    equiv_file="SRVerif/Generated/RmqPyEquiv.lean",
+    proofs_module="SRVerif.Proofs.RmqPyEquiv",
+    imports=["SRVerif.Model.Lca", "SRVerif.Model.RmqPyBridge"],
+    int_ty=INT,
+    elem_lt=True,
+    note=("  `int` values are Lean `Int`s: negative indices wrap around exactly as in Python (`Py.getInt?`),\n"
+          "  `range` / list repetition with a non-positive count are empty, `2 ** e` with `e < 0` (a float in\n"
+          "  Python) is the marker `Err.OutOfSubset`.  Elements are opaque and only support `<`: the explicit\n"
+          "  parameter `lt_` stands for `Element.__lt__` (it may raise).  A class is a structure of the\n"
+          "  attributes stored by `__init__`; lists have value semantics (the translator rejects every\n"
+          "  program in which a list could be reached through two references).\n"
+          "  `Except.error e` = the Python function raises `e`.\n"),
+    equiv={},
+    # statements about the generated functions (they are not of the form `f args = model args`: the model takes
+    # natural numbers, its own exception type and a bare table)
+    equiv_custom=[
+        ("gen_ilog2_eq_model", "(value : Nat) (h : 0 < value)",
+         "_ilog2 (value : Int) = .ok ((Lca.ilog2 value : Nat) : Int)",
+         "SR.RmqPyProofs.ilog2_eq value h"),
+        ("gen_init_eq_model", "{α : Type} (lt : Lca.Lt α) (data : List α)",
+         "RangeMinQuery.__init__ (RmqBridge.liftLt lt) data\n"
+         "      = (match Lca.build lt data with\n"
+         "         | .error e => .error (RmqBridge.toPy e)\n"
+         "         | .ok tbl => .ok { sparse_table := tbl })",
+         "SR.RmqPyProofs.init_eq lt data"),
+        ("gen_call_eq_model",
+         "{α : Type} (lt : Lca.Lt α) (self : RangeMinQuery α) (start stop : Nat)",
+         "RangeMinQuery.__call__ (RmqBridge.liftLt lt) self (start : Int) (stop : Int)\n"
+         "      = RmqBridge.conv (Lca.query lt self.sparse_table start stop)",
+         "SR.RmqPyProofs.call_eq lt self start stop"),
+        ("gen_rmq_eq_model", "{α : Type} (lt : Lca.Lt α) (data : List α) (start stop : Nat)",
+         "(match RangeMinQuery.__init__ (RmqBridge.liftLt lt) data with\n"
+         "     | .error e => .error e\n"
+         "     | .ok self => RangeMinQuery.__call__ (RmqBridge.liftLt lt) self (start : Int) (stop : Int))\n"
+         "      = RmqBridge.modelRmq lt data start stop",
+         "SR.RmqPyProofs.rmq_eq lt data start stop"),
+    ],
+    property_modules=["C17Code"],
+    refute={},
+    # bounded refutation search (classification only, never evidence), on the model's domain only
+    # (0 <= start, stop <= len(data), empty ranges included; the empty array raises in both) and on a total
+    # order without distinct equal elements: what the code does elsewhere is not part of the property
+    refute_prelude=[
+        "def natLt : Lca.Lt Nat := Lca.totalLt (fun a b => decide (a < b))",
+        "def rmqCases : List (List Nat × Nat × Nat) :=",
+        "  (lists 3 5 ++ [[3, 1, 4, 1, 5, 9, 2, 6, 5], [2, 7, 1, 8, 2, 8, 1, 8], "
+        "[9, 8, 7, 6, 5, 4, 3, 2, 1, 0, 1, 2, 3, 4, 5, 6, 7]]).flatMap fun (d : List Nat) =>",
+        "    (List.range (d.length + 1)).flatMap fun a => (List.range (d.length + 1)).map fun b => (d, a, b)",
+    ],
+    refute_custom=[
+        ("_ilog2", "(List.range 70).map (· + 1)", "(n : Nat)",
+         "_ilog2 (n : Int)", ".ok ((Lca.ilog2 n : Nat) : Int)"),
+        ("RangeMinQuery", "rmqCases", "(d, a, b)",
+         "(match RangeMinQuery.__init__ (RmqBridge.liftLt natLt) d with | .error e => .error e "
+         "| .ok s => RangeMinQuery.__call__ (RmqBridge.liftLt natLt) s (a : Int) (b : Int))",
+         "RmqBridge.modelRmq natLt d a b"),
+    ],
+)
+
+SPECS = {"C18": SUBSEQ, "C17": RMQ}
 
 
 def write_if_changed(path, text):
@@ -1049,15 +1715,20 @@ def refute(spec, sigs):
         "  | 0 => [[]]",
         "  | n + 1 => [] :: (lists k n).flatMap fun l => (List.range k).map fun x => x :: l",
     ]
-    for name in spec.functions:
-        sig = sigs[name]
-        a = sig["args"]
-        pat = tup(a)
-        call = f"{sig['name']} {' '.join(a)}"
+    lines += spec.refute_prelude
+    entries = spec.refute_custom
+    if entries is None:
+        entries = []
+        for name in spec.functions:
+            sig = sigs[name]
+            a = sig["args"]
+            entries.append((name, spec.refute[name], tup(a), f"{sig['name']} {' '.join(a)}",
+                            model_side(spec, name, sig)))
+    for name, cases, pat, call, model in entries:
         lines += [
             f"#eval IO.println (\"REFUTE {name} \" ++ toString (repr "
-            f"((({spec.refute[name]}).find? fun {pat} => "
-            f"!(Py.sameResult ({call}) ({model_side(spec, name, sig)}))))))",
+            f"((({cases}).find? fun {pat} => "
+            f"!(Py.sameResult ({call}) ({model}))))))",
         ]
     path = LEAN / ".lake" / f"tie_{spec.prop}_refute.lean"
     path.write_text("\n".join(lines) + "\n")
